@@ -1147,8 +1147,22 @@ class ModelBuilder:
                                 already_exists = True
                                 break
                         if not already_exists:
-                            existing_deps.append(source_task)
-                            target_task[("depends", scIdx)] = existing_deps
+                            # Keep the options given on the 'precedes' side (gap, onstart, ...)
+                            options = (
+                                {k: v for k, v in prec_item.items() if k != "ref"} if isinstance(prec_item, dict) else {}
+                            )
+                            new_dep: Any = source_task
+                            if any(options.values()):
+                                new_dep = {
+                                    "task": source_task,
+                                    "gapduration": options.get("gapduration"),
+                                    "gaplength": options.get("gaplength"),
+                                    "maxgapduration": options.get("maxgapduration"),
+                                    "onstart": options.get("onstart", False),
+                                    "onend": options.get("onend", False),
+                                }
+                            # ListAttributeBase.set() extends the stored list: pass only the new entry
+                            target_task[("depends", scIdx)] = [new_dep]
 
     def _resolve_task_reference(self, project: Project, from_task: Task, ref: str) -> Optional[Task]:
         """Resolve a task reference string to a Task object.
